@@ -30,9 +30,9 @@ CLAIMED = {
  },
  "C19": {
   "technique": "Lean 4 theorems: big-endian bodies (regenerated) on a big-endian host = little-endian bodies on a little-endian host",
-  "text": "For all 23 plain and 14 atomic load/store functions the body selected under WASM_BIG_ENDIAN, run with big-endian object representation, is proved equal (result and memory image) to the little-endian body; the portable mask/shift swaps equal byte reversal for all inputs. The real BE bodies are compiled with forced WASM_BIG_ENDIAN on this host and compared with the model (body=be, host=le) and with the single-reversal expectation.",
+  "text": "For all 23 plain and 14 atomic load/store functions AND all 42 read-modify-write + 7 compare-exchange functions (C19Rmw: the mutex-based big-endian bodies, including C's integer promotion of 8/16-bit operands) the body selected under WASM_BIG_ENDIAN, run with big-endian object representation, is proved equal (result and memory image) to the little-endian body; the portable mask/shift swaps equal byte reversal for all inputs. C19Buf: the translator's float-immediate reader (buffer.h, regenerated) yields the little-endian reading on a big-endian host. C19Wasi: every raw (non-accessor) touch of guest memory by the WASI host moves bytes, and its accessor calls are exactly the witx cells, width for width (tables regenerated from wasi.c). The real BE bodies are compiled with forced WASM_BIG_ENDIAN on this host and compared with the model (body=be, host=le) and with the single-reversal expectation.",
   "design_ref": "DESIGN.md §5 C19",
-  "note": "No BE host in the image: BE theorems are about the regenerated model; the code runs only in forced-BE-on-LE configuration. RMW BE bodies and float immediates of the translator not yet covered (partial).",
+  "note": "No BE host in the image: BE theorems are about the regenerated model; the code runs only in forced-BE-on-LE configuration. Forced-BE builds of the accessors, of the immediate reader and of the WASI host (field-by-field comparison with the LE build) provide the failing-input search.",
  },
  "C07": {
   "technique": "Lean 4 theorems over the literal classifier regenerated from wasmCWriteLiteral + in-process text tie + compile round trip",
